@@ -12,6 +12,8 @@ range. The operations are the ones through which Capy copies aggregates:
                               literal then assignment). Every form has the same meaning: **copy**.
 * `set x off v`             — a scalar write into one cell (directly, through a pointer, in a callee)
 * `assign dst src`          — aggregate assignment between places of the same length
+* `lit x srcs`              — assignment of an aggregate LITERAL whose members are constants or
+                              cells of variables, `x` itself included: all members are read first
 * `obs x off`               — print one cell
 
 The compiler is compared with `run` on generated operation sequences (harness/src/c02_copy.rs);
@@ -28,8 +30,17 @@ structure Place where
   len : Nat
   deriving DecidableEq, Repr
 
+/-- one cell of an aggregate literal: a constant, or the current content of a cell of some variable
+(possibly of the variable being assigned: `p = P.{ x = p.y, y = p.x }`) -/
+inductive Src where
+  | const (z : Int)
+  | cell (x : Nat) (off : Nat)
+  deriving DecidableEq, Repr
+
 inductive Op where
   | init (x : Nat) (cells : List Int)
+  /-- `x = T.{ … }`: every source is read BEFORE anything is written -/
+  | lit (x : Nat) (srcs : List Src)
   | defn (form : Nat) (dst : Nat) (src : Place)
   | set (x : Nat) (off : Nat) (v : Int)
   | assign (dst src : Place)
@@ -60,9 +71,20 @@ def writePlace (st : Store) (x off : Nat) (vs : List Int) : Option Store :=
   | none => none
   | some cells => if off + vs.length ≤ cells.length then some (update x (splice cells off vs) st) else none
 
+def readSrc (st : Store) : Src → Option Int
+  | .const z => some z
+  | .cell x off =>
+    match readPlace st ⟨x, off, 1⟩ with
+    | some [v] => some v
+    | _ => none
+
 /-- one operation: new store and what it prints -/
 def step (st : Store) : Op → Option (Store × List Int)
   | .init x cells => some (update x cells st, [])
+  | .lit x srcs =>
+    match lookup x st, srcs.mapM (readSrc st) with
+    | some old, some vs => if vs.length = old.length then some (update x vs st, []) else none
+    | _, _ => none
   | .defn _ dst src =>
     match readPlace st src with
     | none => none
